@@ -4,7 +4,7 @@
    the API calls; all schedules = all label sequences; repaired code, fixes/C17.patch).
    Specification: spec/SeederSpec.v. *)
 From Coq Require Import NArith List Bool.
-From LV Require Import model.Seeder spec.SeederSpec proofs.SeederProofs proofs.SeederQueues proofs.SeederSessions.
+From LV Require Import model.Seeder spec.SeederSpec proofs.SeederProofs proofs.SeederQueues proofs.SeederSessions proofs.SeederLifetime proofs.SeederCounts.
 Import ListNotations.
 Local Open Scope N_scope.
 
@@ -50,6 +50,13 @@ Theorem C17_session_content : forall cfg db ops,
        l2 = [] /\ items_of sent = range_items db a b).
 Proof. exact session_content. Qed.
 
+(* the boolean checks the driver evaluates on the implementation's logs decide the statements
+   of C17_session_content *)
+Theorem C17_spec_prefix_decides : forall l m, is_prefix l m = true <-> exists rest, l ++ rest = m.
+Proof. exact is_prefix_spec. Qed.
+Theorem C17_spec_equal_decides : forall l m, items_eqb l m = true <-> l = m.
+Proof. exact items_eqb_spec. Qed.
+
 (* non-vacuity: a sorted item list and a history in which a session is created, resumed and
    finished *)
 Example C17_session_content_nonvacuous :
@@ -60,7 +67,84 @@ Example C17_session_content_nonvacuous :
   map rs_done (sel 1 (sents tr)) = [false; false; true].
 Proof. split; [exact w_db_sorted|exact w_session_example]. Qed.
 
+(* Lifetime (repaired code).  In every reachable state the per-peer session list is exactly the
+   set of the peer's live sessions, without repetitions: its length is the number of sessions
+   the peer holds. *)
+Theorem C17_peer_sessions_exact : forall cfg db ops,
+  sorted_keys db ->
+  let st := fst (run v_fixed cfg db (init cfg) ops) in
+  forall p, NoDup (ps_get p (st_peersess st)) /\
+            forall sid, In sid (ps_get p (st_peersess st)) <-> sess_get (p, sid) (st_sessions st) <> None.
+Proof. exact peer_sessions_exact. Qed.
+
+(* A live session survives every step of every goroutine with its incarnation (hence, by
+   C17_session_content, it continues where it left off), except: the reader processing the
+   unregistration of its peer; the reader creating a NEW session of its peer while the peer
+   holds three. *)
+Theorem C17_session_resumable : forall cfg db ops,
+  sorted_keys db ->
+  let st := fst (run v_fixed cfg db (init cfg) ops) in
+  forall o st' evs key ss,
+    step v_fixed cfg db st o = Some (st', evs) ->
+    sess_get key (st_sessions st) = Some ss ->
+    (exists ss', sess_get key (st_sessions st') = Some ss' /\ s_inc ss' = s_inc ss /\
+                 s_orig ss' = s_orig ss /\ s_stop ss' = s_stop ss) \/
+    In (EUnreg (fst key)) evs \/
+    (exists k sid a b c, In (ECreated k (fst key) sid a b c) evs /\ sid <> snd key /\
+                         (3 <= length (ps_get (fst key) (st_peersess st)))%nat).
+Proof. exact session_survives. Qed.
+
+(* A request for a live session is served by that session (no session is created), or is a
+   selector mismatch. *)
+Theorem C17_resume_no_creation : forall cfg st rq ss,
+  sess_get (r_peer rq, r_sid rq) (st_sessions st) = Some ss ->
+  snd (reader_top v_fixed cfg st rq) = [] /\ s_orig ss = r_start rq /\
+    st_reader (fst (reader_top v_fixed cfg st rq)) = RChunk rq 0 ss
+  \/ snd (reader_top v_fixed cfg st rq) = [EMisb (r_peer rq) (r_serial rq)] /\ s_orig ss <> r_start rq.
+Proof. exact resume_no_creation. Qed.
+
+(* Chunk counts (repaired code).  Whenever the reader is between two requests, every request
+   that produced a response got exactly as many responses as chunks it asked for, or its
+   session has finished (the incarnation has its done response): "exactly one done response
+   once enough chunks were requested", together with C17_session_content. *)
+Theorem C17_requests_complete : forall cfg db ops,
+  sorted_keys db ->
+  let st := fst (run v_fixed cfg db (init cfg) ops) in
+  let tr := snd (run v_fixed cfg db (init cfg) ops) in
+  st_reader st = RIdle ->
+  forall r, In r (enqs tr) ->
+    N.of_nat (length (filter (fun r' => r_serial (rs_req r') =? r_serial (rs_req r)) (enqs tr)))
+      = r_chunks (rs_req r)
+    \/ exists r', In r' (enqs tr) /\ rs_inc r' = rs_inc r /\ rs_done r' = true.
+Proof. exact requests_complete. Qed.
+
+(* ... and while a request is being served it has produced i <= MaxChunks responses *)
+Theorem C17_requests_bounded : forall cfg db ops,
+  sorted_keys db ->
+  let st := fst (run v_fixed cfg db (init cfg) ops) in
+  let tr := snd (run v_fixed cfg db (init cfg) ops) in
+  forall rq i ss, st_reader st = RChunk rq i ss ->
+    count_serial (r_serial rq) (enqs tr) = i /\ i <= r_chunks rq.
+Proof. exact requests_bounded. Qed.
+
+(* What is not proved (kept visible): progress of the runtime.  All theorems above are safety
+   statements over all schedules; that the reader does return to its select and that every
+   enqueued response is eventually sent needs fair scheduling of the goroutines.  The
+   possibility form (quiescence is reachable from every reachable state) is: *)
+Definition C17_full : Prop :=
+  forall cfg db ops, sorted_keys db -> 1 <= c_threads cfg -> 0 < c_limit cfg ->
+  exists ops',
+    let st := fst (run v_fixed cfg db (init cfg) (ops ++ ops')) in
+    st_reader st = RIdle /\ st_chreq st = [] /\ st_chunreg st = [] /\ concat (st_senders st) = [].
+
 Print Assumptions C17_limits.
 Print Assumptions C17_session_content.
+Print Assumptions C17_spec_prefix_decides.
+Print Assumptions C17_spec_equal_decides.
+Print Assumptions C17_peer_sessions_exact.
+Print Assumptions C17_session_resumable.
+Print Assumptions C17_resume_no_creation.
+Print Assumptions C17_requests_complete.
+Print Assumptions C17_requests_bounded.
 Print Assumptions C17_pending_bound.
 Print Assumptions C17_fifo.
